@@ -125,12 +125,18 @@ type bWorld struct {
 	byCore   map[string][]*bTxn
 	obsQueue []*bTxn
 	inFlight []*bTxn // transactions of the notification the observer is working on
-	crashes  int
-	curObs   *bTxn
-	curCut   []*operation.QueuedOperation
-	curInfo  *protocol.AnchoringInfo
-	failAt   int
-	wIdx     int
+
+	// second, observer-only node (replica): own store, own observer, own delivery schedule, no injected faults
+	store2  *simenv.OpStore
+	sub2    *simenv.Subscription
+	obs2    *observer.Observer
+	cursor2 int
+	crashes int
+	curObs  *bTxn
+	curCut  []*operation.QueuedOperation
+	curInfo *protocol.AnchoringInfo
+	failAt  int
+	wIdx    int
 
 	clientsDone []bool
 	opsPerDID   int
@@ -411,6 +417,20 @@ func runWorldB(rc *RunCtx, prop string) *RunResult {
 
 	w.store.OnPut = w.onPut
 
+	// the replica node
+	w.store2 = simenv.NewOpStore(k, "store2")
+
+	var versions2 []*simenv.Version
+
+	for _, v := range w.versions {
+		versions2 = append(versions2, simenv.NewVersion(v.P, &simenv.VersionDeps{CAS: w.cas, OpStore: w.store2}))
+	}
+
+	proto2 := simenv.NewProtoClient(k, w.ledgerNow, versions2...)
+	proto2.Namespace = bNS
+	w.sub2 = w.ledger.Subscribe()
+	w.obs2 = observer.New(&observer.Providers{Ledger: simenv.SubLedger{S: w.sub2}, ProtocolClientProvider: proto2})
+
 	// ---- parties
 	w.buildDIDs(nDIDs)
 	w.clientsDone = make([]bool, nClients)
@@ -424,12 +444,16 @@ func runWorldB(rc *RunCtx, prop string) *RunResult {
 	k.Cleanup = func() {
 		w.writer.Stop()
 		w.obs.Stop()
+		w.obs2.Stop()
 	}
 	k.SetCur("W")
 	w.writer.Start()
 	k.Settle()
 	k.SetCur("O")
 	w.obs.Start()
+	k.Settle()
+	k.SetCur("O2")
+	w.obs2.Start()
 	k.Settle()
 
 	k.Run(maxSteps, w.env, w.check)
@@ -447,6 +471,7 @@ func runWorldB(rc *RunCtx, prop string) *RunResult {
 	k.Drain(func() {
 		w.writer.Stop()
 		w.obs.Stop()
+		w.obs2.Stop()
 	})
 
 	res := &RunResult{
@@ -1359,6 +1384,10 @@ func (w *bWorld) env() []simkit.Action {
 		a = append(a, simkit.Action{Label: "deliver", Do: w.deliver})
 	}
 
+	if w.cursor2 < len(w.ledger.Txns) && len(w.sub2.Ch) == 0 && !k.IsParked("O2") {
+		a = append(a, simkit.Action{Label: "deliver to replica", Do: w.deliver2})
+	}
+
 	if w.clockMoves < 40 {
 		a = append(a, simkit.Action{Label: "clock", Do: func() {
 			ds := []time.Duration{time.Second, 3 * time.Second, 11 * time.Second, 40 * time.Second}
@@ -1441,6 +1470,21 @@ func (w *bWorld) deliver() {
 	w.curObs = nil
 	k.SetCur("O")
 	w.sub.Ch <- batch
+}
+
+// deliver2: the replica node gets the ledger in order, in notifications of its own size.
+func (w *bWorld) deliver2() {
+	k := w.k
+	n := 1 + k.T.Draw(minInt(4, len(w.ledger.Txns)-w.cursor2), "deliver2.count")
+
+	if w.faultsOff {
+		n = len(w.ledger.Txns) - w.cursor2
+	}
+
+	batch := append([]txn.SidetreeTxn(nil), w.ledger.Txns[w.cursor2:w.cursor2+n]...)
+	w.cursor2 += n
+	k.SetCur("O2")
+	w.sub2.Ch <- batch
 }
 
 func minInt(a, b int) int {
@@ -1635,8 +1679,13 @@ func (w *bWorld) livenessPhase() {
 			done = done && d
 		}
 
-		if done && len(w.q.Model) == 0 && !w.q.HasInFl && w.pendingTick == "" && w.nextDelivery() < 0 && len(w.sub.Ch) == 0 {
+		if done && len(w.q.Model) == 0 && !w.q.HasInFl && w.pendingTick == "" && w.nextDelivery() < 0 && len(w.sub.Ch) == 0 &&
+			w.cursor2 >= len(w.ledger.Txns) && len(w.sub2.Ch) == 0 {
 			return
+		}
+
+		if w.cursor2 < len(w.ledger.Txns) && len(w.sub2.Ch) == 0 {
+			w.deliver2()
 		}
 
 		if round == bound {
@@ -1735,6 +1784,10 @@ func (w *bWorld) finalOracles() {
 		}
 	}
 
+	// two nodes that observed the same ledger hold the same operations with the same stamps (the replica had no
+	// injected faults, so it holds everything readable; the first node may lack transactions hit by a fault)
+	w.replicaOracle()
+
 	// C20: every accepted operation became resolvable; each DID resolves to the reference state
 	for _, d := range w.dids {
 		if d.Suffix == "" {
@@ -1811,6 +1864,73 @@ func (w *bWorld) finalOracles() {
 		}
 
 		w.externalChecks(d, st)
+	}
+}
+
+func (w *bWorld) replicaOracle() {
+	render := func(op *operation.AnchoredOperation) string {
+		return fmt.Sprintf("%s t=%d n=%d v=%d canon=%s equiv=%v origin=%s req=%s", op.Type, op.TransactionTime, op.TransactionNumber, op.ProtocolVersion,
+			op.CanonicalReference, op.EquivalentReferences, jsonString(op.AnchorOrigin), simenv.ReqKey(op.OperationRequest))
+	}
+
+	index := func(s *simenv.OpStore) map[string]string {
+		out := map[string]string{}
+
+		for sfx, list := range s.Ops {
+			for _, op := range list {
+				out[fmt.Sprintf("%s@(%d,%d)", sfx, op.TransactionTime, op.TransactionNumber)] = render(op)
+			}
+		}
+
+		return out
+	}
+
+	a, b := index(w.store), index(w.store2)
+
+	faultedCoords := map[string]bool{}
+
+	for i, bt := range w.txns {
+		if bt.Faulted || bt.Puts == 0 {
+			t := w.ledger.Txns[i]
+			faultedCoords[fmt.Sprintf("(%d,%d)", t.TransactionTime, t.TransactionNumber)] = true
+		}
+	}
+
+	var keys []string
+	for k2 := range a {
+		keys = append(keys, k2)
+	}
+
+	for k2 := range b {
+		if _, ok := a[k2]; !ok {
+			keys = append(keys, k2)
+		}
+	}
+
+	sort.Strings(keys)
+
+	for _, key := range keys {
+		x, inA := a[key]
+		y, inB := b[key]
+
+		switch {
+		case inA && inB && x != y:
+			w.fail(w.prop, "replica/divergence", fmt.Sprintf("the two nodes stored different operations for %s:\n node 1: %s\n node 2: %s", key, x, y))
+
+			return
+		case inA && !inB:
+			w.fail(w.prop, "replica/divergence", fmt.Sprintf("node 1 stored %s (%s) but the fault-free replica did not", key, x))
+
+			return
+		case !inA && inB && !faultedCoords[key[strings.LastIndex(key, "@")+1:]]:
+			w.fail(w.prop, "replica/divergence", fmt.Sprintf("the replica stored %s (%s) but node 1 did not, although no fault was injected into that transaction", key, y))
+
+			return
+		}
+	}
+
+	if len(b) > 0 {
+		w.k.Count("probe:replica-compared")
 	}
 }
 
